@@ -295,6 +295,10 @@ def left_canonical_form(mps, chi=None, tol=None, qr=False, normalise=False, mask
                 # if tol defined, discard (normalised) singular values in S which are not greater than tolerance.
                 if tol:
                     s = s[s > tol]
+                    if not len(s):
+                        # if no singular value is retained (tol >= 1) then zero return values and break
+                        lcf_mps, norm = zeros_like(mps), mp.mpf(0.0)
+                        break
                 # if chi defined, retain chi largest singular values in S.
                 if chi:
                     s = s[:chi]
